@@ -73,11 +73,18 @@ CONTEXTS = {
     "sqrt":    lambda n: el("msqrt", *n),
     "y=N.":    lambda n: row(mi("y"), mo("="), *n, mo(".")),
     "N;N":     lambda n: row(mo("["), *[x.copy() for x in n], mo(";"), *[x.copy() for x in n], mo("]")),
+    # fences with material in front of them, the list as the generator's own mrow or flat
+    "P=(mrowN)": lambda n: row(mi("P"), mo("="), mo("("), row(*n), mo(")")),
+    "x∈[mrowN]": lambda n: row(mi("x"), mo("∈"), mo("["), row(*n), mo("]")),
+    "A∪{N}":   lambda n: row(mi("A"), mo("∪"), mo("{"), *n, mo("}")),
+    "f(mrowN)+a": lambda n: row(mi("f"), mo("("), row(*n), mo(")"), mo("+"), mi("a")),
+    "(mrowN)":  lambda n: row(mo("("), row(*n), mo(")")),
     "cell":    lambda n: el("mtable", el("mtr", el("mtd", *n), el("mtd", mi("b")))),
 }
-FENCED = ("f(N)", "f(mrowN)", "N;N")
+FENCED = ("f(N)", "f(mrowN)", "N;N", "P=(mrowN)", "x∈[mrowN]", "A∪{N}", "f(mrowN)+a", "(mrowN)")
 MARK_LAST = ("alone", "a+N", "sqrt", "x^N", "y=N.")
 CTX_CLASS = {"alone": "row", "a+N": "row", "N+a": "row", "f(N)": "fenced", "f(mrowN)": "fenced", "N;N": "fenced",
+             "P=(mrowN)": "fenced", "x∈[mrowN]": "fenced", "A∪{N}": "fenced", "f(mrowN)+a": "fenced", "(mrowN)": "fenced",
              "x^N": "2d", "N/2": "2d", "sqrt": "2d", "cell": "2d", "y=N.": "sentence-final"}
 
 
@@ -210,6 +217,16 @@ def work(item):
                     for m in mns(form, []):
                         if m not in parts and not valid_number(m, dmark, blocks):
                             viol.append((f"C16|{sepclass(parts, dmark)}|fence|{cname}|invalid-merge", f"{whole} split inside fences: formed <mn>{m}</mn>, not a valid number", replay))
+                    # "a comma-separated list inside fences is left as a list": every comma written as an operator of its own is still one
+                    commas = [k for p_, k in zip([q for q in parts if not q.isdigit()], k2) if p_ == ","]
+                    if dmark != ".":
+                        pass        # where the comma is the decimal mark "1 , 5" in fences is a number or a list: no claim (as for the near misses below)
+                    elif commas and all(c == "o" for c in commas) and parts[0].isdigit() and parts[-1].isdigit() and not find_mo(form, ","):
+                        counts["list_in_fences_checked"] = counts.get("list_in_fences_checked", 0) + 1
+                        viol.append((f"C16|{sepclass(parts, dmark)}|fence|{CTX_CLASS[cname]}|list-in-fences-absorbed",
+                                     f"[{locale}] {' '.join(parts)} inside fences ({cname}): the comma-separated list was absorbed into {short(mns(form, []), 100)}", replay))
+                    elif commas and all(c == "o" for c in commas):
+                        counts["list_in_fences_checked"] = counts.get("list_in_fences_checked", 0) + 1
                 continue
             counts["positive"] += 1
             rform = canon_form(refres[0])
